@@ -311,7 +311,7 @@ func runC18(c *eng.Ctx) {
 		}
 		_ = g
 		checkErrSites(r4, f, func(o types.Object) bool {
-			return o.Name() == "ParseDuration" || o.Name() == "ParseInt" || o.Name() == "Atoi"
+			return nameOf(o) == "ParseDuration" || nameOf(o) == "ParseInt" || nameOf(o) == "Atoi"
 		}, accum, nil)
 	}
 }
